@@ -116,8 +116,9 @@ theorem serve_ignores_listing_cfg (c : SiteCfg) (d' : DirCfg) (st : StatFn) (sel
     gophermap handler configured, a file named `*.gophermap` is served as the menu it holds.) -/
 theorem hidden_still_retrievable (c : SiteCfg) (st : StatFn) (sel : Str) (d : Bytes)
     (hs : secureB c.forbidden sel = true) (hst : st sel = some (.file d))
+    (hu : (c.url && urlSecureB c.urlForbidden sel) = false)
     (hg : (c.gophermap && endsWithGophermap sel) = false) : serve c st sel = .document d := by
-  simp [serve, dispatch, hs, hst, hg]
+  by_cases hh : (c.htmlTitles && c.isHtml sel) = true <;> simp [serve, dispatch, hs, hst, hg, hu, hh]
 
 /-- dot files are never listed by the UMN handler; ignored names by neither -/
 theorem umn_hides_dotfiles (c : DirCfg) (hc : c.umn = true) (base : Str) (ch : Child)
